@@ -466,6 +466,50 @@ theorem await_status_outcomes (c c' : Ctx) (now : Int) (addr : Nat)
         · cases h
           exact Or.inl ⟨htx, rfl, Or.inr (Or.inl rfl)⟩
 
+/-- **Only the own GAP is polled** (station level): the address `do_pass_token` polls at the end of
+a visit lies in the station's GAP with respect to its ring view at that poll — strictly between TS
+and NS, below HSA, never TS or NS.  (`hcur`: the sweep cursor is below HSA — part of the station
+invariant `Inv.gap` of C05.) -/
+theorem gap_poll_only_own_gap (s : Station) (a : Nat) (hts : s.p.address < s.p.hsa) (hh : s.p.hsa ≤ 126)
+    (hcur : ∀ cur, s.gap = .doPoll cur → cur < s.p.hsa) (h : gapAdvance s = some (.doPoll a)) :
+    InGap s.p.address s.ring.ns s.p.hsa a := by
+  have key : ∀ cur, cur < s.p.hsa → nextGap s cur = some (.doPoll a) → InGap s.p.address s.ring.ns s.p.hsa a := by
+    intro cur hc hn
+    unfold nextGap at hn
+    cases hp : nextGapPoll s.p.address s.ring.ns s.p.hsa cur with
+    | poll x =>
+      rw [hp] at hn
+      simp only [Option.some.injEq, GapState.doPoll.injEq] at hn
+      subst hn
+      exact next_gap_in_gap _ _ _ cur x (by omega) hh hc hp
+    | waiting => rw [hp] at hn; simp at hn
+    | panic => rw [hp] at hn; simp at hn
+  unfold gapAdvance at h
+  cases hg : s.gap with
+  | waiting rot =>
+    rw [hg] at h
+    simp only at h
+    split at h
+    · exact key _ hts h
+    · simp at h
+  | doPoll cur =>
+    rw [hg] at h
+    exact key cur (hcur cur hg) h
+
+/-- The same for the post-claim scan (`claim_scan_step` polls `next_gap_poll(cur)`). -/
+theorem claim_poll_only_own_gap (s : Station) (cur a : Nat) (hts : s.p.address < s.p.hsa) (hh : s.p.hsa ≤ 126)
+    (hcur : cur < s.p.hsa) (h : nextGap s cur = some (.doPoll a)) :
+    InGap s.p.address s.ring.ns s.p.hsa a := by
+  unfold nextGap at h
+  cases hp : nextGapPoll s.p.address s.ring.ns s.p.hsa cur with
+  | poll x =>
+    rw [hp] at h
+    simp only [Option.some.injEq, GapState.doPoll.injEq] at h
+    subst h
+    exact next_gap_in_gap _ _ _ cur x (by omega) hh hcur hp
+  | waiting => rw [hp] at h; simp at h
+  | panic => rw [hp] at h; simp at h
+
 /-! ### … as one theorem over the polls of a whole token visit -/
 
 /-- One poll (`Station.poll`, any inputs) of a station that is past the application phase of its
@@ -774,6 +818,162 @@ theorem claim_await_unexpected (c : Ctx) (now : Int) (fuel addr : Nat) (rx' : By
   rw [hst]
   simp only [awaitGap_unexpected c now addr rx' t l ret rest hne hg hrx hr]
   simp [tr, toActiveIdle, hst']
+
+/-! ### … and as one theorem over the polls of the whole post-claim scan (silent bus) -/
+
+theorem scanOk_stamped (s : Station) (now : Int) (h : ScanOk s) : ScanOk (stamped s now) :=
+  ⟨h.addr, h.hsa, h.gap, h.await⟩
+
+/-- One scan step (`Scan`) transmits exactly the head of what remained of the sweep. -/
+theorem claim_scan_stepOk (c c' : Ctx) (now : Int) (fuel : Nat) (hst : c.s.st = .claimToken .scan)
+    (htx : c.tx = none) (hok : ScanOk c.s) (h : doClaimToken c now (fuel + 1) = .ok c') : StepOk c.s c' := by
+  by_cases hw : SyncOver c.s now
+  · rw [claim_scan_step c now fuel hst htx hw] at h
+    cases hg : c.s.gap with
+    | waiting r =>
+      rw [hg] at h
+      have h' := Res.ok.inj h
+      subst h'
+      refine ⟨?_, rfl, rfl, Or.inr ⟨rfl, ?_⟩⟩
+      · simp [htx, reqs, remaining, hg]
+      · simp [remaining, hg]
+    | doPoll cur =>
+      rw [hg] at h
+      simp only [nextGap] at h
+      have hc := hok.gap cur hg
+      cases hn : nextGapPoll c.s.p.address c.s.ring.ns c.s.p.hsa cur with
+      | panic => rw [hn] at h; cases h
+      | waiting =>
+        rw [hn] at h
+        have h' := Res.ok.inj h
+        subst h'
+        refine ⟨?_, rfl, rfl, Or.inl ⟨by simp [hst, inScan], ?_⟩⟩
+        · simp [htx, reqs, remaining, hg, sweepFrom_end _ _ _ _ _ hn]
+        · exact ⟨hok.addr, hok.hsa, fun cur' hh => by simp at hh, fun a' hh => by simp [hst] at hh⟩
+      | poll a =>
+        rw [hn] at h
+        have hs := sweepFrom_step _ _ _ cur a hok.addr hok.hsa hc hn
+        simp only [if_neg hs.2.2] at h
+        have h' := Res.ok.inj h
+        subst h'
+        refine ⟨?_, rfl, rfl, Or.inl ⟨by simp [inScan], ?_⟩⟩
+        · simp [reqs, remaining, hg, markTx, hs.1]
+        · refine ⟨hok.addr, hok.hsa, fun cur' hh => ?_, fun a' hh => ?_⟩
+          · simp [markTx] at hh; subst hh; exact hs.2.1
+          · simp [markTx] at hh; subst hh; exact ⟨rfl, hs.2.2⟩
+  · rw [claim_scan_waits c now fuel hst hw] at h
+    have h' := Res.ok.inj h
+    subst h'
+    exact ⟨by simp [htx, reqs_congr c.s (stamped c.s now) rfl rfl rfl], rfl, rfl,
+      Or.inl ⟨by simp [hst, inScan], scanOk_stamped c.s now hok⟩⟩
+
+/-- One step in `ScanAwaitResponse` with nothing received: wait, or — slot time over — poll the next
+address at once. -/
+theorem claim_await_stepOk (c c' : Ctx) (now : Int) (fuel addr : Nat)
+    (hst : c.s.st = .claimToken (.scanAwait addr)) (htx : c.tx = none) (hok : ScanOk c.s)
+    (hsil : Silent c.rx) (h : doClaimToken c now (fuel + 2) = .ok c') : StepOk c.s c' := by
+  obtain ⟨rx', ret, hrx⟩ := hsil
+  obtain ⟨hg, hne⟩ := hok.await addr hst
+  by_cases hex : SlotExpired c.s now
+  · rw [claim_await_timeout c now (fuel + 1) addr rx' ret hst hne hg hrx hex] at h
+    obtain ⟨c2, hc2⟩ : ∃ c2 : Ctx, c2 = { c with rx := rx', s := { (stamped c.s now) with st := .claimToken .scan } } :=
+      ⟨_, rfl⟩
+    rw [← hc2] at h
+    have hok2 : ScanOk c2.s := by
+      rw [hc2]
+      exact ⟨hok.addr, hok.hsa, hok.gap, fun a' hh => by simp at hh⟩
+    have := claim_scan_stepOk c2 c' now fuel (by rw [hc2]) (by rw [hc2]; exact htx) hok2 h
+    have hr : reqs c2.s = reqs c.s := by rw [hc2]; exact reqs_congr c.s _ rfl rfl rfl
+    have hp : c2.s.p = c.s.p := by rw [hc2]; rfl
+    have hring : c2.s.ring = c.s.ring := by rw [hc2]; rfl
+    exact ⟨by rw [this.1, hr], by rw [this.2.1, hp], by rw [this.2.2.1, hring], this.2.2.2⟩
+  · rw [claim_await_waits c now (fuel + 1) addr rx' ret hst hne hg hrx hex] at h
+    have h' := Res.ok.inj h
+    subst h'
+    exact ⟨by simp [htx, reqs_congr c.s (stamped c.s now) rfl rfl rfl], rfl, rfl,
+      Or.inl ⟨by simp [hst, inScan], scanOk_stamped c.s now hok⟩⟩
+
+/-- One whole `poll` during the scan, nothing (complete) received. -/
+theorem claim_poll_stepOk (s : Station) (apps : Apps) (now : Int) (phyTx : Bool) (rx : Bytes) (c' : Ctx)
+    (hin : inScan s.st = true) (hok : ScanOk s) (hsil : Silent rx)
+    (h : s.poll apps now phyTx rx = .ok c') : StepOk s c' := by
+  have h1 : s.st ≠ .offline := by intro hh; rw [hh] at hin; simp [inScan] at hin
+  have h2 : s.st ≠ .passiveIdle := by intro hh; rw [hh] at hin; simp [inScan] at hin
+  rcases poll_cases s apps now phyTx rx c' h1 h2 h with rfl | hd
+  · exact ⟨by simp [reqs_congr s (markBusActivity s now) rfl rfl rfl], rfl, rfl,
+      Or.inl ⟨by simpa [markBusActivity] using hin, ⟨hok.addr, hok.hsa, hok.gap, hok.await⟩⟩⟩
+  · have hc := checkBusActivity_core s now rx.length
+    obtain ⟨s1, hs1⟩ : ∃ s1, checkBusActivity s now rx.length = s1 := ⟨_, rfl⟩
+    rw [hs1] at hd hc
+    have hok1 : ScanOk s1 :=
+      ⟨by rw [hc.2.1]; exact hok.addr, by rw [hc.2.1]; exact hok.hsa, by rw [hc.2.2.2, hc.2.1]; exact hok.gap,
+       by rw [hc.1, hc.2.2.2, hc.2.1]; exact hok.await⟩
+    have hr : reqs s1 = reqs s := reqs_congr s s1 hc.2.1 hc.2.2.1 hc.2.2.2
+    have lift : StepOk s1 c' → StepOk s c' := fun hh =>
+      ⟨by rw [hh.1, hr], by rw [hh.2.1, hc.2.1], by rw [hh.2.2.1, hc.2.2.1], hh.2.2.2⟩
+    unfold dispatch at hd
+    cases hst : s.st with
+    | claimToken step =>
+      have hst1 : s1.st = .claimToken step := by rw [hc.1]; exact hst
+      simp only [hst1] at hd
+      cases step with
+      | scan => exact lift (claim_scan_stepOk { s := s1, apps := apps, rx := rx } c' now 1 hst1 rfl hok1 hd)
+      | scanAwait a => exact lift (claim_await_stepOk { s := s1, apps := apps, rx := rx } c' now 0 a hst1 rfl hok1 hsil hd)
+      | firstToken => rw [hst] at hin; simp [inScan] at hin
+      | secondToken => rw [hst] at hin; simp [inScan] at hin
+    | _ => rw [hst] at hin; simp [inScan] at hin
+
+/-- **`claim_sweeps_whole_gap`**: after claiming the token the station polls successive GAP addresses
+until the sweep ends, and only then passes the token.  For ANY sequence of polls (arbitrary times)
+during which no complete telegram arrives, the telegrams transmitted while scanning, followed by the
+requests still outstanding, are exactly the status requests of the sweep that was outstanding at
+the start; parameters and ring view stay; and if the station has left the scan it is in `PassToken`
+(`do_gap = No`) with nothing outstanding: it HAS polled the whole sweep — after `claim_token_step`
+(cursor = TS) that is, by `sweep_exact`, exactly its GAP, each address once, in ascending order. -/
+theorem claim_sweeps_whole_gap : ∀ (ins : List (Int × Bool × Bytes)) (s : Station) (apps : Apps)
+    (l : List Bytes) (s' : Station),
+    (∀ i ∈ ins, Silent i.2.2) → inScan s.st = true → ScanOk s → claimRun s apps ins = some (l, s') →
+    l ++ reqs s' = reqs s ∧ s'.p = s.p ∧ s'.ring = s.ring ∧
+    (inScan s'.st = true ∨ (s'.st = .passToken false .first ∧ l = reqs s)) := by
+  intro ins
+  induction ins with
+  | nil =>
+    intro s apps l s' _ hin _ h
+    simp only [claimRun, Option.some.injEq, Prod.mk.injEq] at h
+    obtain ⟨rfl, rfl⟩ := h
+    exact ⟨by simp, rfl, rfl, Or.inl hin⟩
+  | cons x rest ih =>
+    intro s apps l s' hsil hin hok h
+    obtain ⟨now, phyTx, rx⟩ := x
+    simp only [claimRun, hin, Bool.true_eq_false, if_false] at h
+    cases hp : s.poll apps now phyTx rx with
+    | panic m => rw [hp] at h; cases h
+    | ok c' =>
+      rw [hp] at h
+      simp only [Option.map_eq_some_iff] at h
+      obtain ⟨⟨l1, s1⟩, hrun, hl⟩ := h
+      simp only [Prod.mk.injEq] at hl
+      obtain ⟨rfl, rfl⟩ := hl
+      have hstep := claim_poll_stepOk s apps now phyTx rx c' hin hok (hsil (now, phyTx, rx) (by simp)) hp
+      obtain ⟨htx, hpp, hring, hnext⟩ := hstep
+      rcases hnext with ⟨hin', hok'⟩ | ⟨hpass, hrem⟩
+      · have := ih c'.s c'.apps l1 s1 (fun i hi => hsil i (by simp [hi])) hin' hok' hrun
+        obtain ⟨h1, h2, h3, h4⟩ := this
+        refine ⟨by rw [List.append_assoc, h1, htx], by rw [h2, hpp], by rw [h3, hring], ?_⟩
+        rcases h4 with h4 | ⟨h4, h5⟩
+        · exact Or.inl h4
+        · exact Or.inr ⟨h4, by rw [h5, htx]⟩
+      · -- the scan is complete: the run stops here
+        have hstop : claimRun c'.s c'.apps rest = some ([], c'.s) := by
+          cases rest with
+          | nil => rfl
+          | cons y r => simp [claimRun, hpass, inScan]
+        rw [hstop] at hrun
+        simp only [Option.some.injEq, Prod.mk.injEq] at hrun
+        obtain ⟨rfl, rfl⟩ := hrun
+        have hr0 : reqs c'.s = [] := by simp [reqs, hrem]
+        rw [hr0] at htx
+        refine ⟨by simp [hr0, ← htx], hpp, hring, Or.inr ⟨hpass, by simpa using htx⟩⟩
 
 /-! ## 2. The pause between two sweeps (`gap_wait_rotations`) -/
 
@@ -1279,6 +1479,14 @@ example : obs (doClaimToken (demo (.claimToken .scan) (.doPoll 8) []) 1000 2) =
     some (.claimToken (.scanAwait 9), .doPoll 9, some (statusRequestBytes 9 7), 20) := by decide
 example : obs (doClaimToken (demo (.claimToken (.scanAwait 9)) (.doPoll 9) []) 1000 2) =
     some (.claimToken (.scanAwait 10), .doPoll 10, some (statusRequestBytes 10 7), 20) := by decide
+-- the whole rest of the sweep (cursor 17, NS 20) over five silent polls: requests to 18 and 19, then PassToken
+example : (claimRun (demo (.claimToken .scan) (.doPoll 17) []).s []
+      [(1000, false, []), (2000, false, []), (3000, false, []), (4000, false, []), (5000, false, [])]).map
+      (fun r => (r.1, r.2.st)) =
+    some ([statusRequestBytes 18 7, statusRequestBytes 19 7], .passToken false .first) := by decide
+example : Silent [] := ⟨[], false, by decide⟩
+example : ScanOk (demo (.claimToken .scan) (.doPoll 17) []).s :=
+  ⟨by decide, by decide, fun cur h => by simp [demo] at h; subst h; decide, fun a h => by simp [demo] at h⟩
 -- … until the address before NS was polled: the sweep is over, then the token is passed
 example : obs (doClaimToken (demo (.claimToken (.scanAwait 19)) (.doPoll 19) []) 1000 2) =
     some (.claimToken .scan, .waiting 0, none, 20) := by decide
